@@ -799,7 +799,9 @@ func (db *DB) get(auxm *memdb.DB, auxt tFiles, key []byte, seq uint64, ro *opt.R
 		}
 	}
 
+	verifGate(db.s, "r:after-mems")
 	v := db.s.version()
+	verifGate(db.s, "r:after-version")
 	value, cSched, err := v.get(auxt, ikey, ro, false)
 	v.release()
 	if cSched {
@@ -837,7 +839,9 @@ func (db *DB) has(auxm *memdb.DB, auxt tFiles, key []byte, seq uint64, ro *opt.R
 		}
 	}
 
+	verifGate(db.s, "r:after-mems")
 	v := db.s.version()
+	verifGate(db.s, "r:after-version")
 	_, cSched, err := v.get(auxt, ikey, ro, true)
 	v.release()
 	if cSched {
@@ -866,6 +870,7 @@ func (db *DB) Get(key []byte, ro *opt.ReadOptions) (value []byte, err error) {
 
 	se := db.acquireSnapshot()
 	defer db.releaseSnapshot(se)
+	verifGate(db.s, "r:after-seq")
 	return db.get(nil, nil, key, se.seq, ro)
 }
 
@@ -880,6 +885,7 @@ func (db *DB) Has(key []byte, ro *opt.ReadOptions) (ret bool, err error) {
 
 	se := db.acquireSnapshot()
 	defer db.releaseSnapshot(se)
+	verifGate(db.s, "r:after-seq")
 	return db.has(nil, nil, key, se.seq, ro)
 }
 
@@ -910,6 +916,7 @@ func (db *DB) NewIterator(slice *util.Range, ro *opt.ReadOptions) iterator.Itera
 
 	se := db.acquireSnapshot()
 	defer db.releaseSnapshot(se)
+	verifGate(db.s, "r:after-seq")
 	// Iterator holds 'version' lock, 'version' is immutable so snapshot
 	// can be released after iterator created.
 	return db.newIterator(nil, nil, se.seq, slice, ro)
@@ -1190,6 +1197,7 @@ func (db *DB) Close() error {
 
 	// Signal all goroutines.
 	close(db.closeC)
+	verifTrace(db.s, "close:signalled")
 
 	// Discard open transaction.
 	if db.tr != nil {
@@ -1198,9 +1206,11 @@ func (db *DB) Close() error {
 
 	// Acquire writer lock.
 	db.writeLockC <- struct{}{}
+	verifTrace(db.s, "close:lock")
 
 	// Wait for all gorotines to exit.
 	db.closeW.Wait()
+	verifTrace(db.s, "close:drained")
 
 	// Closes journal.
 	if db.journal != nil {
